@@ -1103,15 +1103,21 @@ package zygo
 // keys hand the remembered type of their source (or an element type) to the array they build,
 // and aset replaces elements in place, so a remembered type may describe other contents
 //@ func (*SexpArray).Type
+//@ C01 assert descends-with-a-budget @before call typeWithin[0]: arg0 == r && arg1 >= 0 && arg1 <= 64
+//@ func (*SexpArray).typeWithin
 //@ ghost asked := false @entry
 //@ ghost asked := true @after call Type[0]
+//@ ghost asked := true @after call typeWithin[0]
 //@ ghost ety := ret0 @after call Type[0]
+//@ ghost ety := ret0 @after call typeWithin[0]
 //@ ghost sty := ret0 @after call GetOrCreateSliceType[0]
 // (C01) typing an array of arrays recurses; an array can be made to contain itself, and the typing
 // runs in BindSymbol, outside any recover: the generic Type() is never called on an element that
-// is itself an array (that descent is budgeted)
+// is itself an array; that descent goes through typeWithin with a budget that decreases
 //@ C01 assert element-recursion-is-budgeted @before call Type[0]: !typeis(arg0, *SexpArray)
-//@ C17 ensures typed-by-its-current-first-element: old(len(r.Val) > 0) ==> asked && (ety != nil ==> r0 == sty) && (ety == nil ==> r0 == nil)
+//@ C01 assert the-budget-decreases @before call typeWithin[0]: budget > 0 && arg1 == budget - 1
+//@ C17 ensures typed-by-its-current-first-element: old(len(r.Val) > 0 && (budget > 0 || !typeis(r.Val[0], *SexpArray))) ==> asked && (ety != nil ==> r0 == sty) && (ety == nil ==> r0 == nil)
+//@ C17 ensures beyond-the-budget-no-type: old(len(r.Val) > 0 && budget <= 0 && typeis(r.Val[0], *SexpArray)) ==> r0 == nil
 //@ C17 ensures empty-is-the-empty-slice-unless-typed: old(len(r.Val) == 0 && r.Typ != nil) ==> r0 == old(r.Typ)
 
 // every successful set on a typed record stores a declared field; a rejected set changes nothing (C14 contract)
